@@ -200,7 +200,38 @@ def rule_shape(chk, head2, test2):
             if isinstance(e.ops[0], ast.In):
                 return "false" if lab == "true" else "true"
         return None
+    # `v = message.get(key, <sentinel>)` + `v is <sentinel>`: absence, exactly, when the sentinel is a private object(); with None as the
+    # default a field that is present with the value None looks absent
+    getvars = {}
+    for n_ in region:
+        a_ = n_.ast
+        if isinstance(a_, ast.Assign) and n_.kind != "test" and len(a_.targets) == 1 and isinstance(a_.targets[0], ast.Name) and isinstance(a_.value, ast.Call) \
+                and isinstance(a_.value.func, ast.Attribute) and a_.value.func.attr == "get" and isinstance(a_.value.func.value, ast.Name) and a_.value.func.value.id == mparam \
+                and a_.value.args and isinstance(a_.value.args[0], ast.Name) and a_.value.args[0].id == key:
+            getvars[a_.targets[0].id] = a_.value.args[1] if len(a_.value.args) > 1 else None
+    _absent_label0 = absent_label
+
+    def absent_label(t):
+        r_ = _absent_label0(t)
+        if r_ is not None:
+            return r_
+        e, lab = X.strip_not(t.exprs[0], "true")
+        if isinstance(e, ast.Compare) and len(e.ops) == 1 and isinstance(e.ops[0], (ast.Is, ast.IsNot)) and isinstance(e.left, ast.Name) and e.left.id in getvars:
+            dflt = getvars[e.left.id]
+            other = e.comparators[0]
+            is_sentinel = False
+            if dflt is not None and isinstance(dflt, ast.Name) and isinstance(other, ast.Name) and other.id == dflt.id:
+                vals_ = [x for x in v.module.assigns.get(dflt.id, []) if isinstance(x, ast.AST)]
+                is_sentinel = len(vals_) == 1 and isinstance(vals_[0], ast.Call) and unparse(vals_[0]) == "object()"
+            if is_sentinel:
+                return lab if isinstance(e.ops[0], ast.Is) else ("false" if lab == "true" else "true")
+            if (dflt is None or (isinstance(dflt, ast.Constant) and dflt.value is None)) and isinstance(other, ast.Constant) and other.value is None:
+                problems.append("absence of a declared field is tested as `%s` after `%s.get(%s)`: a field that is PRESENT with the value None (legal for a field that accepts None) "
+                                "is reported as missing, so a conforming message fails validation" % (unparse(t.exprs[0]), mparam, key))
+                return lab if isinstance(e.ops[0], ast.Is) else ("false" if lab == "true" else "true")
+        return None
     absent = [t for t in region if t.kind == "test" and absent_label(t) is not None]
+    problems[:] = list(dict.fromkeys(problems))
     raises = [n for n in region if n.kind == "raise_stmt" and "ValidationError" in unparse(n.ast)]
     absent_lab = absent_label(absent[0]) if absent else None
     if not absent or not raises or not all(cfg.edge_dominates(absent[0], absent_lab, r) for r in raises) \
@@ -209,7 +240,7 @@ def rule_shape(chk, head2, test2):
     vcalls = [(n, c) for n in region for c, m in calls_in_node(n) if isinstance(c.func, ast.Attribute) and c.func.attr == "validate" and isinstance(c.func.value, ast.Name) and c.func.value.id == fld]
     body = [s for s, l in head.succ if l == "body"][0]
     rng = cfg.count_range(body, [head], lambda x: sum(1 for n, c in vcalls if n is x), avoid_edges={(absent[0], absent_lab)} if absent else ())
-    if rng != (1, 1) or not all(len(c.args) == 1 and unparse(c.args[0]) == "%s[%s]" % (mparam, key) for n, c in vcalls):
+    if rng != (1, 1) or not all(len(c.args) == 1 and (unparse(c.args[0]) == "%s[%s]" % (mparam, key) or (isinstance(c.args[0], ast.Name) and c.args[0].id in getvars)) for n, c in vcalls):
         problems.append("each present declared field's value is not validated exactly once (range %s)" % (rng,))
     chk.req(not problems, "C14.shape", "_MessageSerializer.validate:every-declared-field-present-and-valid", chk.where(v), good="for every declared field: present, and field.validate(value)", fail="; ".join(problems), sites=len(region))
     # exits: early return only under allow_additional_fields; otherwise through the no-extras loop
